@@ -917,11 +917,19 @@ pub fn run_item(ctx: &mut Ctx, i: usize, seed: u64) {
         ctx.eval();
         let st = RefCell::new(IStats::default());
         let label = || format!("iftd#{}|{}|{}|{}|0|0|", i, v.name, "directed", seed);
-        let r = ctx.run_case(&label, Some(&v.font), &|| {
-            let mut s = st.borrow_mut();
-            let defs = if v.name == "whole" { &d.defs[..] } else { &d.defs[..CORE_DEFS.min(d.defs.len())] };
-            run_variant(&v.font, defs, &mut s);
-        });
+        // one monitored case per subset definition: the cpu-time bound of `run_case` is meant per
+        // operation group on the input, not for (>= 10 definitions x 3 APIs) on a 200 KB table
+        let defs = if v.name == "whole" { &d.defs[..] } else { &d.defs[..CORE_DEFS.min(d.defs.len())] };
+        let mut r: Result<(), vf_core::PanicInfo> = Ok(());
+        for one in defs.chunks(1) {
+            let rr = ctx.run_case(&label, Some(&v.font), &|| {
+                let mut s = st.borrow_mut();
+                run_variant(&v.font, one, &mut s);
+            });
+            if rr.is_err() && r.is_ok() {
+                r = rr;
+            }
+        }
         let s = st.into_inner();
         if let Err(p) = &r {
             ctx.count(&format!("panics_at:{}:{}:{}", p.file, p.line, p.class.as_str()), 1);
